@@ -31,6 +31,15 @@ def atomic_updates(prog, r, owner, field, extra_body=None):
     return out
 
 
+def retain_per_object(r, b, ban, bb):
+    """a `size -= 1` inside the walk of retain(), behind the removal of one idle object in the same iteration: the per-object
+    form of `size -= removed.len()`"""
+    if b.path != r.RETAIN.path or not in_cycle(ban, bb):
+        return False
+    rms = [x.idx for x, m in queue_calls(r, b, ban) if m == 'remove' and in_cycle(ban, x.idx)]
+    return any(ban.dominates(x, bb) for x in rms)
+
+
 def size_inventory(ctx, r, rule):
     """where the size counter is written, with what: one +1 (creator) and one decrement per way an object leaves"""
     prog = ctx.prog
@@ -42,12 +51,12 @@ def size_inventory(ctx, r, rule):
             if b.blocks[bb].cleanup:
                 continue
             sz.append((b, bb, s, classify_write(ban, s)))
-    got = sorted({(b.name, op, 'len' if 'len' in v else v) for b, bb, s, (op, v) in sz})
+    got = sorted({(b.name, op, 'len' if 'len' in v or (op == '-=' and v == '1_usize' and retain_per_object(r, b, prog.an(b), bb)) else v) for b, bb, s, (op, v) in sz})
     # several sites in one function are fine as long as no path executes two of them
     for b in {x[0].path: x[0] for x in sz}.values():
         ban = prog.an(b)
         mine = [bb for b2, bb, s, w in sz if b2.path == b.path and w[0] == '-=']
-        twice = [(x, y) for x in mine for y in mine if x != y and y in ban.reach_after(x, ('normal',))] + [x for x in mine if in_cycle(ban, x) and b.path not in (r.RESIZE.path, r.CLOSE.path)]
+        twice = [(x, y) for x in mine for y in mine if x != y and y in ban.reach_after(x, ('normal',))] + [x for x in mine if in_cycle(ban, x) and b.path not in (r.RESIZE.path, r.CLOSE.path) and not retain_per_object(r, b, ban, x)]
         ctx.ob(rule, 'no path decrements size twice', not twice, ctx.where(b), str(twice), construct='size-dec-twice:' + b.name)
     cres = [prog.bodies[p].name for p in r.GETTER if manager_calls(prog.bodies[p], MANAGER_CREATE)]
     exp = sorted([(cres[0], '+=', '1_usize')] if cres else []) + []
@@ -223,7 +232,7 @@ def run(ctx):
         elif b.path in (h.path for h in r.TAKE):
             ev = not in_cycle(ban, bb) and 'called once per consumed Object'
         elif b.path == r.RETAIN.path:
-            ev = 'len' in v and 'length of the vector of removed objects'
+            ev = ('len' in v and 'length of the vector of removed objects') or (retain_per_object(r, b, ban, bb) and 'behind the removal of one idle object, once per iteration')
         else:
             # Some arm of a pop / Option::take on the wrapper
             sws = [x for x in b.blocks if maybe_arms(r.crate, x.term) is not None]
